@@ -46,6 +46,9 @@ type Alloc struct {
 	Len   int    `json:"len"`
 	Kind  string `json:"kind"`
 	Et    string `json:"et"`
+	Mask  []json.RawMessage `json:"mask"`
+	Soft  bool   `json:"soft"`
+	MOpen bool   `json:"mopen"`
 }
 
 type Post struct {
